@@ -703,6 +703,15 @@ def r3_mask_insertion(ctx, rule):
         ok = False
         ctx.bad(rule, qual, 'index step %s' % [U(s) for s in steps], 'the index must advance by one on every iteration '
                 '(the inserted C element is skipped by the next iteration because it is not an A)', facts, wl)
+    # the index starts at the first transition: its binding in front of the loop is 0
+    inits = [v for s_, v in stores_in(fn).get(iv, []) if v is not None and isinstance(const(v), int) and not isinstance(const(v), bool)] if iv else []
+    if iv and (len(inits) != 1 or const(inits[0]) != 0):
+        ok = False
+        if len(inits) == 1:
+            ctx.bad(rule, qual, 'the scan starts at index %s' % U(inits[0]), 'every transition is visited, the first one included: an alpha transition '
+                    'at the front of a structure otherwise gets no capitalisation transition', facts, wl, firm=True)
+        else:
+            ctx.unk(rule, qual, 'the start index of the mask insertion scan is not a single constant')
     if ok:
         ctx.ok(rule, qual, "C<n> inserted at i+1 after every A<n>, every element visited", facts)
 
